@@ -5,6 +5,7 @@ package main
 
 import (
 	"context"
+	"errors"
 	"fmt"
 	"sort"
 	"strconv"
@@ -169,6 +170,8 @@ type runtimeEnv struct {
 	runStore *flyt.SharedStore
 	stores   []*flyt.SharedStore
 	onRunner func() // called on the goroutine that is about to call flyt.Run
+	valueNodes map[int]*leafImpl // leaves implemented by value-type nodes
+	seenCtx    []context.Context
 }
 
 func (e *runtimeEnv) record(s string) {
@@ -190,6 +193,37 @@ func (e *runtimeEnv) sid(s *flyt.SharedStore) int {
 	}
 	e.stores = append(e.stores, s)
 	return len(e.stores)
+}
+
+// seeCtx: every callback is handed a context; a context handed to ANY callback of this run must stay usable for as
+// long as the run's own context is alive (a node may leave a ctx-bound resource in the store for a later node). A
+// context found dead while the run's context is alive is recorded as an extra trace event, which no model run has.
+func (e *runtimeEnv) seeCtx(ctx context.Context, where string) {
+	if ctx == nil {
+		return
+	}
+	runDead := e.context().Err() != nil
+	e.mu.Lock()
+	known := false
+	var dead bool
+	for _, c := range e.seenCtx {
+		if c == ctx {
+			known = true
+		}
+		if !runDead && c.Err() != nil {
+			dead = true
+		}
+	}
+	if !known {
+		e.seenCtx = append(e.seenCtx, ctx)
+		if !runDead && ctx.Err() != nil {
+			dead = true
+		}
+	}
+	if dead {
+		e.trace = append(e.trace, "p:9999:0:0") // an impossible event: "a context given to a callback died before the run's context"
+	}
+	e.mu.Unlock()
 }
 
 func (e *runtimeEnv) cancelNow() {
@@ -384,18 +418,21 @@ func (l *leafImpl) post(shared *flyt.SharedStore, pv, ev any) (flyt.Action, erro
 type plainNode struct{ l *leafImpl }
 
 func (n *plainNode) Prep(ctx context.Context, s *flyt.SharedStore) (any, error) {
+	n.l.rt.env.seeCtx(ctx, "prep")
 	if n.l.cfg.PrepS == "absent" {
 		return nil, nil
 	}
 	return n.l.prep(s)
 }
 func (n *plainNode) Exec(ctx context.Context, p any) (any, error) {
+	n.l.rt.env.seeCtx(ctx, "exec")
 	if n.l.cfg.ExecS == "absent" {
 		return nil, nil
 	}
 	return n.l.exec(p)
 }
 func (n *plainNode) Post(ctx context.Context, s *flyt.SharedStore, p, e any) (flyt.Action, error) {
+	n.l.rt.env.seeCtx(ctx, "post")
 	if n.l.cfg.PostS == "absent" {
 		return flyt.DefaultAction, nil
 	}
@@ -425,18 +462,21 @@ type baseStruct struct {
 }
 
 func (n *baseStruct) Prep(ctx context.Context, s *flyt.SharedStore) (any, error) {
+	n.l.rt.env.seeCtx(ctx, "prep")
 	if n.l.cfg.PrepS == "absent" {
 		return n.BaseNode.Prep(ctx, s)
 	}
 	return n.l.prep(s)
 }
 func (n *baseStruct) Exec(ctx context.Context, p any) (any, error) {
+	n.l.rt.env.seeCtx(ctx, "exec")
 	if n.l.cfg.ExecS == "absent" {
 		return n.BaseNode.Exec(ctx, p)
 	}
 	return n.l.exec(p)
 }
 func (n *baseStruct) Post(ctx context.Context, s *flyt.SharedStore, p, e any) (flyt.Action, error) {
+	n.l.rt.env.seeCtx(ctx, "post")
 	if n.l.cfg.PostS == "absent" {
 		return n.BaseNode.Post(ctx, s, p, e)
 	}
@@ -447,6 +487,22 @@ func (n *baseStruct) Post(ctx context.Context, s *flyt.SharedStore, p, e any) (f
 type baseStructFb struct{ baseStruct }
 
 func (n *baseStructFb) ExecFallback(p any, err error) (any, error) { return n.l.fallback(p, err) }
+
+// valueNode: a Node implementation used BY VALUE (not through a pointer). valueNode{0} is the zero value of its
+// type — a legal node like any other. A value carries no pointer to its state, so the state is looked up in the
+// scenario that currently owns `valueScenario` (scenarios with value nodes run one at a time).
+type valueNode struct{ ID int }
+
+var (
+	valueScenarioMu sync.Mutex // held for the whole execution of a scenario that has value nodes
+	valueImpls      map[int]*leafImpl
+)
+
+func (n valueNode) Prep(ctx context.Context, s *flyt.SharedStore) (any, error) { return valueImpls[n.ID].prep(s) }
+func (n valueNode) Exec(ctx context.Context, p any) (any, error)              { return valueImpls[n.ID].exec(p) }
+func (n valueNode) Post(ctx context.Context, s *flyt.SharedStore, p, x any) (flyt.Action, error) {
+	return valueImpls[n.ID].post(s, p, x)
+}
 
 func (e *runtimeEnv) buildLeaf(id int, cfg *LeafCfg) flyt.Node {
 	rt := &nodeRT{env: e, id: id, visit: -1}
@@ -459,6 +515,9 @@ func (e *runtimeEnv) buildLeaf(id int, cfg *LeafCfg) flyt.Node {
 		return e.buildFuncNode(l, cfg, wait)
 	}
 	switch {
+	case cfg.Fb == "absent" && !cfg.Retryable && cfg.Impl == "value" && cfg.PrepS == "direct" && cfg.ExecS == "direct" && cfg.PostS == "direct":
+		e.valueNodes[id] = l
+		return valueNode{ID: id}
 	case cfg.Fb == "absent" && !cfg.Retryable:
 		return &plainNode{l}
 	case cfg.Fb == "absent" && cfg.Retryable:
@@ -477,6 +536,7 @@ func (e *runtimeEnv) buildLeaf(id int, cfg *LeafCfg) flyt.Node {
 // function-style node through flyt.NewNode: options, builder methods, or a mixture
 func (e *runtimeEnv) buildFuncNode(l *leafImpl, cfg *LeafCfg, wait time.Duration) flyt.Node {
 	prepRes := func(ctx context.Context, s *flyt.SharedStore) (flyt.Result, error) {
+		e.seeCtx(ctx, "prep")
 		v, err := l.prep(s)
 		if err != nil {
 			if v != nil {
@@ -486,8 +546,9 @@ func (e *runtimeEnv) buildFuncNode(l *leafImpl, cfg *LeafCfg, wait time.Duration
 		}
 		return asResult(v), nil
 	}
-	prepAny := func(ctx context.Context, s *flyt.SharedStore) (any, error) { return l.prep(s) }
+	prepAny := func(ctx context.Context, s *flyt.SharedStore) (any, error) { e.seeCtx(ctx, "prep"); return l.prep(s) }
 	execRes := func(ctx context.Context, p flyt.Result) (flyt.Result, error) {
+		e.seeCtx(ctx, "exec")
 		v, err := l.exec(p)
 		if err != nil {
 			if v != nil {
@@ -497,11 +558,13 @@ func (e *runtimeEnv) buildFuncNode(l *leafImpl, cfg *LeafCfg, wait time.Duration
 		}
 		return asResult(v), nil
 	}
-	execAny := func(ctx context.Context, p any) (any, error) { return l.exec(p) }
+	execAny := func(ctx context.Context, p any) (any, error) { e.seeCtx(ctx, "exec"); return l.exec(p) }
 	postRes := func(ctx context.Context, s *flyt.SharedStore, p, x flyt.Result) (flyt.Action, error) {
+		e.seeCtx(ctx, "post")
 		return l.post(s, p, x)
 	}
 	postAny := func(ctx context.Context, s *flyt.SharedStore, p, x any) (flyt.Action, error) {
+		e.seeCtx(ctx, "post")
 		return l.post(s, p, x)
 	}
 	fb := func(p any, err error) (any, error) { return l.fallback(p, err) }
@@ -802,7 +865,7 @@ func (e *runtimeEnv) buildBatchWith(b *batchImpl) *flyt.BatchNodeBuilder {
 
 func newRuntime(sc *FlowScenario) *runtimeEnv {
 	e := &runtimeEnv{sc: sc, leafScr: map[[2]int]*LeafScript{}, batchScr: map[[2]int]*BatchScript{},
-		nodes: map[int]flyt.Node{}, rts: map[int]*nodeRT{}}
+		nodes: map[int]flyt.Node{}, rts: map[int]*nodeRT{}, valueNodes: map[int]*leafImpl{}}
 	for i := range sc.LeafScripts {
 		s := &sc.LeafScripts[i]
 		e.leafScr[[2]int{s.N, s.V}] = s
@@ -887,11 +950,21 @@ func (e *runtimeEnv) runOnceVia(root int, via string) RunObs {
 	e.mu.Lock()
 	e.trace = nil
 	e.stores = nil
+	e.seenCtx = nil
 	e.mu.Unlock()
 	e.runStore = flyt.NewSharedStore()
-	if e.sc.Kind == "deadline" {
+	switch e.sc.Kind {
+	case "deadline":
 		e.ctx = newTestCtx("deadline")
-	} else {
+	case "cause": // cancelled with a custom cause: ctx.Err() is still context.Canceled and that is what must be matched
+		e.ctx = nil
+		c, stop := context.WithCancelCause(context.Background())
+		e.realCtx, e.realStop = c, func() { stop(errors.New("custom cancellation cause")) }
+	case "fardeadline": // a deadline far in the future, cancelled by hand long before it
+		e.ctx = nil
+		c, stop := context.WithDeadline(context.Background(), time.Now().Add(time.Hour))
+		e.realCtx, e.realStop = c, stop
+	default:
 		e.ctx = nil
 		e.realCtx, e.realStop = context.WithCancel(context.Background())
 	}
@@ -951,7 +1024,17 @@ func (e *runtimeEnv) runOnceVia(root int, via string) RunObs {
 }
 
 func execFlowScenario(sc *FlowScenario) FlowObs {
+	for _, n := range sc.Nodes {
+		if n.Leaf != nil && n.Leaf.Impl == "value" {
+			valueScenarioMu.Lock()
+			defer valueScenarioMu.Unlock()
+			break
+		}
+	}
 	e := newRuntime(sc)
+	if len(e.valueNodes) > 0 {
+		valueImpls = e.valueNodes
+	}
 	obs := FlowObs{Runs: []RunObs{}}
 	for _, st := range sc.Steps {
 		switch {
